@@ -6,9 +6,10 @@
 (*  {"ev":"ret","id":n}                                                     *)
 (*  {"ev":"putb","ok":b,...}   {"ev":"snap","ents":[..],"total":n}          *)
 (*  {"ev":"race",..} {"ev":"deadlock",..} {"ev":"panic",..}: no action      *)
-(* Lin steps consume no line; at most one per pending call.                 *)
+(* Lin steps consume no line; at most one per pending call; they happen in   *)
+(* bursts before a ret line (see the search reduction in CollFSConc).         *)
 (***************************************************************************)
-EXTENDS CollFSConc, TraceIO
+EXTENDS CollFSConc
 
 TraceInit == l = 1 /\ FSInit /\ StoreInit /\ ConcInit
 
@@ -22,11 +23,17 @@ TraceReset == /\ IsEvent("reset")
 
 TraceNext ==
     \/ TraceReset
-    \/ IsEvent("call") /\ Call(Ev.id, Ev)
+    \/ IsEvent("call") /\ Call(Ev.id, l)
     \/ IsEvent("ret")  /\ Ret(Ev.id)
     \/ IsEvent("putb") /\ PutBConc(Ev.ok)
     \/ IsEvent("snap") /\ QuietSnap(Ev.ents, Ev.total)
-    \/ (\E id \in DOMAIN pend : Lin(id)) /\ UNCHANGED l
+    \/ /\ l <= Len(Trace) /\ Trace[l].ev = "ret"            \* bursts of Lin steps before a return only
+       /\ \E id \in Burst(Trace[l].id) : Lin(id)
+       /\ UNCHANGED l
+
+\* Acceptance = SOME behaviour consumes every line: stop exploring as soon as one did (depth-first
+\* queue, see checks/C13.py), otherwise the exhaustive search would visit every linearisation.
+MarkExit == Mark /\ (l = Len(Trace) + 1 => TLCSet("exit", TRUE))
 
 TraceSpec == TraceInit /\ [][TraceNext]_<<concvars, l>>
 =============================================================================
